@@ -101,7 +101,7 @@ const HOSTILE_CHARS: &[&str] = &[
     "\u{85}", "\u{a0}", "\u{2003}", "\u{2028}", "\u{d7ff}", "\u{e000}", "\u{fffd}", "\u{feff}", "]]>", "]]]>",
     "]]", "--", "?>", "&amp;", "&#13;", "&lt;", "<!--", "<![CDATA[", "=", "/", "x", "1", "  ", " encoding=\"ISO-8859-1\"", "charset=koi8-r ",
     // characters a Unicode normalizer turns into '<' / '&' / two letters
-    "\u{226e}", "\u{ff06}", "\u{fb01}",
+    "\u{226e}", "\u{ff06}", "\u{fb01}", "\u{ff1e}", "]]\u{ff1e}", "\u{226f}",
 ];
 
 pub fn hostile_string(rng: &mut Rng, min: usize, max: usize, allow_cr: bool) -> String {
